@@ -24,7 +24,8 @@ META = {
             "the data version that the card accessors route on (vN sets N, N routes to vN.update_*); theory patches build "
             "couplings.ref from (scale, num_flavs_ref) and delete exactly the documented dropped keys after reading what they "
             "need; operator patches build init from (mu0, num_flavs_init); v1 adds matching_order (0,0), the use_fhmv rename "
-            "and one integration core.",
+            "and one integration core."
+            " The initial scale exactly on a default matching scale with no initial flavour number gets the upper flavour number.",
     "note": "Real legacy files are not read; the mapping table is the specification.",
     "technique": "partial evaluation of the converters on symbolic legacy dictionaries + exact comparison with a mapping table; version routing evaluated on a model file system with recording patches",
     "engine": "sa",
